@@ -4,12 +4,12 @@ CONSTANTS MaxItems = 2
  MaxBlocks = 0
  MaxDepth = 1
  MaxLeaves = 99
- Lean = FALSE
+ Lean = TRUE
  Budget = 2
- IdOffs <- IdOffs3
- Rules = {"assume", "implies_intr", "implies_elim", "substitution", "theorem", "sorry", "", "subproof", "verif_gap1"}
- ArgKinds = {}
- ArityOffs <- ArityOffs1
+ IdOffs <- IdOffs1
+ Rules = {"assume", "implies_elim", "reflexive", "symmetric", "transitive", "equal_intr", "equal_elim", "substitution", "subst_type", "forall_intr"}
+ ArgKinds = {"none", "term", "thm", "inst"}
+ ArityOffs <- ArityOffs3
  MaxAlias = 0
  Emit = TRUE
 INVARIANT RefSound
